@@ -873,6 +873,37 @@ async fn signal(a: &[String]) -> Vec<String> {
                     finish_v = wt_finish(&mut send).await;
                 }
             }
+            "stop_late" => {
+                // the writer learns of the stop from a failing write first; every later signal,
+                // asked for well after the peer has had time to answer whatever the library sent
+                // in reaction, still reports the stop and its code
+                recv.stop(code);
+                let mut w1 = "ok".to_string();
+                for _ in 0..100 {
+                    match bounded(send.write(&[0x77])).await {
+                        None => {
+                            w1 = "timeout".into();
+                            break;
+                        }
+                        Some(Ok(_)) => tokio::time::sleep(std::time::Duration::from_millis(10)).await,
+                        Some(Err(e)) => {
+                            w1 = canon::write_err(&e);
+                            break;
+                        }
+                    }
+                }
+                tokio::time::sleep(std::time::Duration::from_millis(150)).await;
+                let w2 = match bounded(send.write_all(&[0x78, 0x79])).await {
+                    None => "timeout".into(),
+                    Some(Ok(_)) => "ok".into(),
+                    Some(Err(e)) => canon::write_err(&e),
+                };
+                write_v = format!("{w1},{w2}");
+                stopped_v = stopped_of(bounded(send.stopped()).await);
+                if phase != "after" {
+                    finish_v = wt_finish(&mut send).await;
+                }
+            }
             _ => {
                 // finish
                 if phase != "after" {
@@ -1336,7 +1367,7 @@ fn gen_c06(thorough: bool, rng: &mut Rng, emit: &mut dyn FnMut(&str, Vec<String>
             }
         }
     }
-    for action in ["reset", "stop", "finish"] {
+    for action in ["reset", "stop", "stop_late", "finish"] {
         for phase in ["before", "mid", "after"] {
             for role in ROLES {
                 for code in codes {
@@ -1345,7 +1376,7 @@ fn gen_c06(thorough: bool, rng: &mut Rng, emit: &mut dyn FnMut(&str, Vec<String>
                     }
                 }
                 // random codes
-                let extra = if thorough { 250 } else { 10 };
+                let extra = if thorough { 250 } else if action == "stop_late" { 3 } else { 10 };
                 for _ in 0..extra {
                     let code = rng.varint62();
                     let rt = *rng.pick(&RTS);
